@@ -6,24 +6,26 @@ from concurrent.futures import ThreadPoolExecutor
 
 from common import *
 import seqcheck
+import mccheck
+import meta
 
 # ---------------------------------------------------------------------------------------
 # sequential-engine properties (monitor: specs/core/CoreTrace.tla)
 
 SEQ = {
-    "C01": dict(families=["core", "dur", "untracked", "lru", "struct", "intern", "mixed"],
+    "C01": dict(mc=["core", "dur", "untracked", "lru"], families=["core", "dur", "untracked", "lru", "struct", "intern", "mixed"],
                 needs=["op:set", "dv", "we"],
                 rule="random programs (decision-tree bodies over inputs, cells, calls, structs, interning) x random "
                      "histories; non-trivial = the history has a write, a validated reuse and an execution"),
-    "C02": dict(families=["dur"], needs=["op:set", "dv", "we"],
+    "C02": dict(mc=["dur"], families=["dur"], needs=["op:set", "dv", "we"],
                 rule="durability family: writes with keep/LOW/MEDIUM/HIGH/NEVER, synthetic writes of every durability; "
                      "non-trivial = a write, a validated reuse and an execution in one history"),
-    "C03": dict(families=["core", "dur", "untracked", "lru", "struct"], needs=["op:set", "dv", "we", "eq"],
+    "C03": dict(mc=["core", "dur", "untracked", "lru"], families=["core", "dur", "untracked", "lru", "struct"], needs=["op:set", "dv", "we", "eq"],
                 rule="non-trivial = history with a write, a reuse, a re-execution and a backdating comparison"),
-    "C04": dict(families=["untracked"], needs=["op:cell", "we", "dv"],
+    "C04": dict(mc=["untracked"], families=["untracked"], needs=["op:cell", "we", "dv"],
                 rule="untracked family: cells read with report_untracked_read, changed together with synthetic writes; "
                      "non-trivial = a cell change, an execution and a reuse"),
-    "C05": dict(families=["lru"], needs=["op:get", "drop", "we"],
+    "C05": dict(mc=["lru"], families=["lru"], needs=["op:get", "drop", "we"],
                 rule="lru family: capacity 0..3 changed at run time, explicit eviction; non-trivial = values were "
                      "dropped and functions executed"),
     "C06": dict(families=["struct"], needs=["new", "we", "op:set"],
@@ -60,18 +62,53 @@ def run_seq(pid, tier, seed, replay):
     wd = workdir(f"{pid}-{tier}")
     known = load_known()
     results = []
+    mcinfo = None
     if replay:
         rp = json.load(open(replay))
         jobs = [rp["job"]] if "job" in rp else rp["jobs"]
         results.append(seqcheck.run_family(binary, rp.get("family", "replay"), seed, 0, 0, wd, jobs=jobs))
     else:
         t = TIERS[tier]
+        mcinfo = run_mc_part(pid, cfg, tier, seed, binary, wd, results)
         fams = cfg["families"]
         with ThreadPoolExecutor(max_workers=min(8, len(fams))) as ex:
             futs = [ex.submit(seqcheck.run_family, binary, fam, seed * 1000 + i, t["njobs"], t["nops"], wd)
                     for i, fam in enumerate(fams)]
-            results = [f.result() for f in futs]
-    return finish(pid, tier, seed, results, cfg, known, wd, t0, mc=None)
+            results += [f.result() for f in futs]
+    return finish(pid, tier, seed, results, cfg, known, wd, t0, mc=mcinfo)
+
+
+def run_mc_part(pid, cfg, tier, seed, binary, wd, results):
+    """Exhaustive TLC run of the generative spec + replay of its histories on the implementation."""
+    fams = cfg.get("mc", [])
+    if not fams:
+        return None
+    info = {"states": 0, "transitions": 0, "mc_models": [], "replayed_histories": 0, "replay_fetches_compared": 0,
+            "drift": 0, "drift_samples": [], "exhaustive": True}
+    limit = 1500 if tier == "quick" else 30000
+    for fam in fams:
+        mc = mccheck.run_mc(fam, tier, wd)
+        jobs = mccheck.replay_jobs(mc, limit, seed)
+        r = seqcheck.run_family(binary, "mc-" + fam, seed, 0, 0, wd, jobs=jobs)
+        checked, drift = mccheck.compare_predictions(jobs, r["trace"])
+        results.append(r)
+        info["states"] += mc["distinct"]
+        info["transitions"] += mc["generated"]
+        info["mc_models"].append({"spec": "specs/core/CoreGen.tla", "family": fam, "constants": mc["consts"],
+                                  "programs": len(mc["programs"]), "distinct_states": mc["distinct"],
+                                  "states_generated": mc["generated"], "depth": mc["depth"],
+                                  "invariants": mccheck.INVARIANTS, "leaf_histories_emitted": len(mc["replays"]),
+                                  "replayed_on_impl": len(jobs), "wall_s": round(mc["wall_s"], 1)})
+        info["replayed_histories"] += len(jobs)
+        info["replay_fetches_compared"] += checked
+        info["drift"] += len(drift)
+        info["drift_samples"] += drift[:3]
+        log(f"[{pid}] MC {fam}: {mc['distinct']} distinct states, {len(mc['replays'])} leaf histories, "
+            f"{len(jobs)} replayed on salsa, {checked} fetches compared, drift={len(drift)} ({mc['wall_s']:.0f}s)")
+    if info["drift"]:
+        log(f"DRIFT: {info['drift']} fetches where salsa's (value, executed, validated) differ from the model's prediction; "
+            f"no property predicate failed on them unless a VIOLATION line follows. e.g. {json.dumps(info['drift_samples'][:1])}")
+    return info
 
 
 def finish(pid, tier, seed, results, cfg, known, wd, t0, mc):
@@ -134,7 +171,7 @@ def finish(pid, tier, seed, results, cfg, known, wd, t0, mc):
     }
     if mc:
         coverage.update(mc)
-    level = "model_checking"
+    level = meta.META[pid]["level"]
     write_evidence(pid, tier, seed, level, coverage, time.time() - t0, len(own), ASSUME_SEQ)
     if own:
         os.makedirs(os.path.join(WORK, "replay"), exist_ok=True)
